@@ -255,3 +255,142 @@ def periodic_condition_routes_left_and_right(S):
         S.forall(f"f_{side}-is-the-data-function-on-its-own-side", ff, lambda q, ff=ff, end=end: zreal(ff.val.at(q)) == fdata.value_terms([end] + xr(q))[0])
     xx = kw["x"]
     S.forall("x-is-the-non-periodic-sample", xx, lambda q: zreal(xx.val.at(q)) == zreal(X.at(q)))
+
+
+# ----------------------------------------------------------------------------- integro-differential condition
+@scenario("C04", [C + "IntegroPINNCondition.__init__", C + "IntegroPINNCondition.forward"], configs=["xt"], bounded=BOUND + "; integral variable x")
+def integro_condition_pairs_every_point_with_every_integral_point(S):
+    """IntegroPINNCondition.forward: n sampled points (x, t) and m integral points x'.  post: every callable invoked
+    once (the model twice: on the points and on the combined points); the residual receives BY NAME
+      x[i], t[i]            the sampled coordinates of row i            (shape [n, 1, .])
+      x_integral[j]         the integral points                         (shape [1, m, .])
+      u[i]       = M(x_i, t_i)
+      u_integral[i, j] = M(x'_j, t_i)    -- the integral variable replaced, the other coordinates of row i kept
+    and the loss is reduce(error(residual))."""
+    I = S.I
+    x, t = S.new(RN, "x", 2), S.new(RN, "t", 1)
+    n, m = S.int("n", 1), S.int("m", 1)
+    smp = AbstractSampler(S, "smp", mul(S, x, t), n)
+    ismp = AbstractSampler(S, "ismp", S.new(RN, "x", 2), m)
+    model = AbstractModel(S, "net", mul(S, S.new(RN, "x", 2), S.new(RN, "t", 1)), S.new(RN, "u", 2))
+    res = RowFn("res", ["u", "u_integral", "x", "x_integral", "t"], 2, {"u": 2, "u_integral": 2, "x": 2, "x_integral": 2, "t": 1})
+    E, Rd = rowwise_tensor_fn("E"), scalar_tensor_fn("Rd")
+    cond = S.new(C + "IntegroPINNCondition", model.obj, smp.obj, res, ismp.obj, E, reduce_fn=Rd)
+    loss = S.method(cond, "forward")
+    S.ensure("samplers-asked-exactly-once-each", len(smp.calls) == 1 and len(ismp.calls) == 1)
+    S.ensure("model-evaluated-on-points-and-on-combined-points", len(model.calls) == 2)
+    S.ensure("residual-error-reduce-once-each", len(res.calls) == 1 and len(E.calls) == 1 and len(Rd.calls) == 1)
+    if not (len(res.calls) == 1 and len(E.calls) == 1 and len(Rd.calls) == 1 and len(smp.calls) == 1 and len(ismp.calls) == 1):
+        return
+    S.ensure("loss-is-reduce-of-error-of-residual", loss is Rd.calls[0]["result"] and Rd.calls[0]["args"][0] is E.calls[0]["result"])
+    S.ensure("error-fn-gets-the-residual-value", getattr(E.calls[0]["args"][0], "meta", {}).get("rowfn", (None,))[0] is res)
+    kw = res.calls[0]["kwargs"]
+    names_ok = sorted(kw) == ["t", "u", "u_integral", "x", "x_integral"]
+    S.ensure("residual-gets-exactly-its-named-arguments", names_ok)
+    if not names_ok:
+        return
+    X, Xi = smp.calls[0]["tensor"].val, ismp.calls[0]["tensor"].val
+    srow = lambda r: {"x": [zreal(X.at([r, (k,)])) for k in range(2)], "t": [zreal(X.at([r, (2,)]))]}
+    irow = lambda r: [zreal(Xi.at([r, (k,)])) for k in range(2)]
+    shapes = {"x": (True, False, 2), "t": (True, False, 1), "x_integral": (False, True, 2), "u": (True, False, 2), "u_integral": (True, True, 2)}
+    for nm, (hn, hm, dm) in shapes.items():
+        v = kw[nm].val
+        ok = v.rank == 3 and (v.shape[0].size_term() == zint(n) if hn else v.shape[0].is_one) and (v.shape[2].concrete() == dm)
+        S.ensure(f"{nm}-has-shape-points-by-integral-points-by-dim", ok if isinstance(ok, bool) else z3.And(ok, (v.shape[1].size_term() == zint(m)) if hm else z3.BoolVal(v.shape[1].is_one)))
+    struct_ok = all(kw[nm].val.rank == 3 and kw[nm].val.shape[2].concrete() == dm and kw[nm].val.shape[0].is_one == (not hn) and kw[nm].val.shape[1].is_one == (not hm) for nm, (hn, hm, dm) in shapes.items())
+    S.ensure("argument-axes-are-points-by-integral-points-by-dim", struct_ok)
+    if not struct_ok:
+        return
+    comp = lambda q, dm: (q[2][0] if dm != 1 else 0)
+    for nm in ("x", "t"):
+        v = kw[nm].val
+        dm = shapes[nm][2]
+        S.forall(f"{nm}-is-the-sampled-coordinate-of-row-i", kw[nm], lambda q, v=v, nm=nm, dm=dm: zreal(v.at(q)) == core.select_comp(comp(q, dm), dm, [(lambda k=k: srow(q[0])[nm][k]) for k in range(dm)]))
+    v = kw["x_integral"].val
+    S.forall("x_integral-is-the-integral-point-j", kw["x_integral"], lambda q: zreal(v.at(q)) == core.select_comp(comp(q, 2), 2, [(lambda k=k: irow(q[1])[k]) for k in range(2)]))
+    u = kw["u"].val
+    S.forall("u-is-the-model-at-the-sampled-point-inputs-by-name", kw["u"], lambda q: zreal(u.at(q)) == core.select_comp(comp(q, 2), 2, [(lambda c=c: model.out_terms(srow(q[0])["x"] + srow(q[0])["t"])[c]) for c in range(2)]))
+    ui = kw["u_integral"].val
+    S.forall("u_integral-i-j-is-the-model-at-integral-point-j-with-the-other-coordinates-of-row-i", kw["u_integral"], lambda q: zreal(ui.at(q)) == core.select_comp(comp(q, 2), 2, [(lambda c=c: model.out_terms(irow(q[1]) + srow(q[0])["t"])[c]) for c in range(2)]))
+    S.ensure("coordinates-are-tracked-leaves", all(kw[nm].requires_grad for nm in ("x", "t", "x_integral")))
+
+
+# ----------------------------------------------------------------------------- DeepONet condition
+@scenario("C04", ["torchphysics.problem.conditions.deeponet_condition.DeepONetSingleModuleCondition.__init__", "torchphysics.problem.conditions.deeponet_condition.DeepONetSingleModuleCondition.forward", "torchphysics.problem.conditions.deeponet_condition.PIDeepONetCondition.__init__", "torchphysics.models.deeponet.deeponet.DeepONet._forward_branch"], configs=["pi-deeponet"], bounded="trunk variable x:1, output u:2, input functions f:1 (schematic); numbers of functions, locations, neurons and discretisation points symbolic")
+def deeponet_condition_evaluates_every_function_at_every_sampled_location(S):
+    """PIDeepONetCondition.forward with K input functions (CustomFunctionSet f_k = fparam(k, x), real class) and n
+    sampled locations: the functions are (re)sampled and the branch evaluated once, the locations sampled once and
+    shared by all functions, and the residual receives BY NAME for function b and location j
+       x[b, j] = location j,   u[b, j, c] = sum_k T[b, j, c, k] Br[b, c, k],   f[b, j] = f_b(location j);
+    the loss is reduce(error(residual)) -- with PIDeepONetCondition's defaults the mean over functions and locations
+    of the squared residual summed over components."""
+    from .c09_deeponet import abstract_trunk_branch, DON, BRANCH, FS
+    from tpv.absdom import abstract_domain
+    from tpv import tsum
+
+    I = S.I
+    K, n, q, nd = S.int("K", 1), S.int("n", 1), S.int("q", 1), S.int("ndisc", 1)
+    d = 2
+    xs = S.new(RN, "x", 1)
+    trunk, _unused, Tt, Bt = abstract_trunk_branch(S, K, n, d, q, True)
+    tcalls = []
+    trunk.f["__overrides__"] = {"forward": lambda I2, o, pts: (tcalls.append(pts), Tt)[1], "__call__": lambda I2, o, pts: (tcalls.append(pts), Tt)[1]}
+    fsp = S.new(FS, abstract_domain(S, "Din", xs).obj, S.new(RN, "f", 1))
+    disc = AbstractSampler(S, "disc", xs, nd)
+    branch = S.new(BRANCH, fsp, disc.obj)
+    bcalls = []
+
+    def branch_call(I2, o, batch):
+        bcalls.append(batch)
+        o.f["current_out"] = Bt
+
+    branch.f["__overrides__"] = {"forward": branch_call, "__call__": branch_call}
+    psmp = AbstractSampler(S, "par", S.new(RN, "k", 1), K)
+    fpar = RowFn("fparam", ["k", "x"], 1, {"k": 1, "x": 1})
+    fset = S.new("torchphysics.problem.domains.functionsets.functionset.CustomFunctionSet", fsp, psmp.obj, fpar)
+    us = S.new(RN, "u", d)
+    net = S.new(DON, trunk, branch, us, Sym(zint(q) * d, "int"))
+    smp = AbstractSampler(S, "smp", S.new(RN, "x", 1), n)
+    res = RowFn("res", ["u", "x", "f"], 2, {"u": 2, "x": 1, "f": 1})
+    cfg_default = True
+    cond = S.new("torchphysics.problem.conditions.deeponet_condition.PIDeepONetCondition", net, fset, smp.obj, res)
+    loss = S.method(cond, "forward", "cpu", 0)
+    S.ensure("functions-sampled-once-branch-evaluated-once", len(psmp.calls) == 1 and len(bcalls) == 1)
+    S.ensure("locations-sampled-once-trunk-evaluated-once", len(smp.calls) == 1 and len(tcalls) == 1)
+    S.ensure("residual-evaluated-once", len(res.calls) == 1)
+    if not (len(res.calls) == 1 and len(smp.calls) == 1 and len(psmp.calls) == 1 and len(tcalls) == 1):
+        return
+    X = smp.calls[0]["tensor"].val
+    Kp = psmp.calls[0]["tensor"].val
+    tin = tensor_of(tcalls[0])
+    ok = tin.rank == 3 and tin.shape[2].concrete() == 1
+    S.ensure("trunk-input-functions-by-locations", ok and tin.shape[0].size_term() == zint(K) and tin.shape[1].size_term() == zint(n))
+    if ok:
+        S.forall("trunk-input-b-j-is-location-j-for-every-function", Tensor(tin), lambda qq: zreal(tin.at(qq)) == zreal(X.at([qq[1], ()])))
+    kw = res.calls[0]["kwargs"]
+    names_ok = sorted(kw) == ["f", "u", "x"]
+    S.ensure("residual-gets-exactly-its-named-arguments", names_ok)
+    if not names_ok:
+        return
+    dims = {"x": 1, "u": 2, "f": 1}
+    struct_ok = all(kw[nm].val.rank == 3 and kw[nm].val.shape[2].concrete() == dm for nm, dm in dims.items())
+    S.ensure("arguments-have-axes-functions-locations-dim", struct_ok)
+    if not struct_ok:
+        return
+    for nm in dims:
+        v = kw[nm].val
+        S.ensure(f"{nm}-has-K-functions-and-n-locations", z3.And(v.shape[0].size_term() == zint(K), v.shape[1].size_term() == zint(n)))
+    xv, uv, fv = kw["x"].val, kw["u"].val, kw["f"].val
+    S.forall("x-b-j-is-location-j", kw["x"], lambda qq: zreal(xv.at(qq)) == zreal(X.at([qq[1], ()])))
+    S.forall("u-b-j-is-the-inner-product-of-function-b-and-location-j", kw["u"], lambda qq: zreal(uv.at(qq)) == tsum.sum_term([Dim([zint(q)])], lambda r: zreal(Tt.val.at([qq[0], qq[1], qq[2], r[0]])) * zreal(Bt.val.at([qq[0], qq[2], r[0]])), "sum"))
+    S.forall("f-b-j-is-input-function-b-at-location-j", kw["f"], lambda qq: zreal(fv.at(qq)) == fpar.value_terms([zreal(Kp.at([qq[0], ()])), zreal(X.at([qq[1], ()]))])[0])
+    S.ensure("x-is-a-tracked-leaf", kw["x"].requires_grad)
+    # PIDeepONetCondition defaults: SquaredError then torch.mean
+    rv = res.calls[0]["result"].val
+    lossv = loss.val
+    S.ensure("loss-is-one-number", lossv.numel_concrete() == 1)
+    from tpv import torchlib, tlib
+
+    sq = tlib.power(I, Tensor(rv), 2)
+    want = torchlib.t_mean(I, torchlib.t_sum(I, sq, dim=-1))
+    S.ensure("loss-is-the-mean-over-functions-and-locations-of-the-squared-residual-summed-over-components", z3.eq(z3.simplify(zreal(lossv.at([() for _ in lossv.shape]))), z3.simplify(zreal(want.val.at([])))))
